@@ -292,7 +292,12 @@ fn gen_items(w: &mut Rng, j: &mut u32, depth: usize, n_templates: usize, in_temp
                 site: w.pick(SITES).to_string(),
             }),
             7 => v.push(Item::RandomF { j: jj }),
-            8 if depth == 0 && !in_template => v.push(Item::Reseed { seed: w.below(100000) }),
+            8 if depth == 0 && !in_template => {
+                // half of the reseeds repeat a seed already in force (the API seed or an
+                // earlier <config seed>): the stream must restart all the same
+                let s = if w.chance(1, 2) { u64::MAX } else { w.below(100000) };
+                v.push(Item::Reseed { seed: s })
+            }
             9 if depth < 2 => {
                 let body = gen_items(w, j, depth + 1, n_templates, in_template);
                 v.push(Item::Loop {
@@ -415,10 +420,20 @@ impl Engine for C14 {
         for _ in 0..n_templates {
             templates.push(gen_items(&mut w, &mut j, 1, 0, true));
         }
-        let items = gen_items(&mut w, &mut j, 0, n_templates, false);
+        let mut items = gen_items(&mut w, &mut j, 0, n_templates, false);
+        let api_seed = if w.chance(1, 3) { 0 } else { w.below(1_000_000) };
+        let mut in_force = api_seed;
+        for it in items.iter_mut() {
+            if let Item::Reseed { seed } = it {
+                if *seed == u64::MAX {
+                    *seed = in_force;
+                }
+                in_force = *seed;
+            }
+        }
         let scn = Scn {
             mode: "once".into(),
-            seed: if w.chance(1, 3) { 0 } else { w.below(1_000_000) },
+            seed: api_seed,
             templates,
             items,
             doc: None,
